@@ -357,9 +357,11 @@ namespace OP2Utility::Archive
 		m_IndexTableLength = ReadTag(TagVOLI);
 		m_IndexEntryCount = m_IndexTableLength / sizeof(IndexEntry);
 
-		if (m_IndexTableLength > 0) {
+		if (m_IndexEntryCount > 0) {
 			m_IndexEntries.resize(m_IndexEntryCount);
-			archiveFileReader.Read(m_IndexEntries.data(), m_IndexTableLength);
+			// Read whole index entries only. If the index table length is not a multiple of the entry size,
+			// reading the full length would write past the end of the buffer (or into a null buffer).
+			archiveFileReader.Read(m_IndexEntries);
 		}
 
 		if (m_HeaderLength < m_StringTableLength + m_IndexTableLength + 24) {
